@@ -220,6 +220,10 @@ def run(chk, tmp, replay=None):
         res = core.tlc(os.path.join(tmp, "ex_clean"), "LockerMC.tla", "l.cfg", timeout=600, files={"l.cfg": cfg})
         chk.cov["observation_grog_clean_under_a_holder"] = {"mutex_violated_in_model": "Mutex" in res.violated, "distinct_states": res.distinct,
                                                              "note": "outside C10 (which speaks of builds): a concurrent `grog clean` lets a second build acquire a fresh lock file"}
+    # unbounded in processes, inodes, crashes and steps: the inductive invariant of the flock protocol, checked by the TLA+ proof system
+    n, wall = core.tlapm(os.path.join(tmp, "proof"), "LockerProof.tla")
+    chk.cov["proofs"] = [{"module": "LockerProof.tla", "theorem": "Spec => []MutexAlt (Protocol = flock, no `grog clean`), any set of processes, any MaxIno >= 1, any number of crashes",
+                          "obligations_proved": n, "wall_s": wall, "tool": "tlapm (SMT, Zenon, Isabelle, PTL back ends)"}]
     hbin = core.build_harness(tmp)
     batches = [("2p", "P2", 1, 60 if quick else 600, 70), ("3p", "P3", 2, 40 if quick else 600, 110)]
     chk.cov["rule"] = ("one evaluation = one TLC-generated schedule (which process performs its next file-system call, or is killed) stepped through real OS processes; "
